@@ -854,11 +854,12 @@ mod n {
 
     #[test]
     fn n_c13_setback() {
-        drive("C13.setback", "Window::shades_for_setback: wall 6x3 in 7 poses x 2 positions; window 1.5 x 1.2 at (1,0.8) or (0,0); setback {0.005, 0.2, 1.0}; window position present / absent", |c| {
+        drive("C13.setback", "Window::shades_for_setback: wall 6x3 in 7 poses x 2 positions; window 1.5 x 1.2 at (1,0.8) or (0,0); setback {0.005, 0.011, 0.02, 0.05, 0.1, 0.2, 1.0}; window position present / absent", |c| {
             let (tilt, az) = c.of(&POSES);
             let pos = c.of(&[point![0.0f32, 0.0, 0.0], point![3.0f32, -2.0, 5.0]]);
             let wpos = c.of(&[point![1.0f32, 0.8], point![0.0f32, 0.0]]);
-            let sb = c.of(&[0.005f32, 0.2, 1.0]);
+            // below 1 cm (the tolerance of every position of the model) a setback may be ignored; from 1 cm on it is one
+            let sb = c.of(&[0.005f32, 0.011, 0.02, 0.05, 0.1, 0.2, 1.0]);
             let has_pos = c.flag();
             let wall_has_pos = c.flag();
             let g = WallGeom { tilt, azimuth: az, position: if wall_has_pos { Some(pos) } else { None }, polygon: mk::rect(6.0, 3.0) };
